@@ -38,6 +38,13 @@ def make_settings(d, kind):
         pre = hvsrpy.HvsrPreProcessingSettings(window_length_in_seconds=2.0, filter_corner_frequencies_in_hz=[0.5, 20.0], detrend="linear")
     else:
         pre = hvsrpy.PsdPreProcessingSettings(window_length_in_seconds=2.0, differentiate=True, detrend="constant")
+    if kind == "diffuse-figure":
+        # diffuse-field processing, figures switched on, the y axis cut below the curve: what is written is what was computed, whatever the figure shows
+        pre = hvsrpy.PsdPreProcessingSettings(window_length_in_seconds=2.0, detrend="constant")
+        pro = hvsrpy.HvsrDiffuseFieldProcessingSettings(smoothing=dict(operator="konno_and_ohmachi", bandwidth=40., center_frequencies_in_hz=fcs))
+        pre.save(os.path.join(d, f"pre_{kind}.json"))
+        pro.save(os.path.join(d, f"pro_{kind}.json"))
+        return f"pre_{kind}.json", f"pro_{kind}.json"
     if kind == "hvsr-fft":
         # a settings file that carries an fft_settings dictionary: the length chosen for one file must not reach the next file of the chunk
         pre = hvsrpy.HvsrPreProcessingSettings(window_length_in_seconds=70.0, detrend="linear")
@@ -75,7 +82,7 @@ def cli_clause(cl, rng, n, replay):
                     configs.append((kind, order, nproc, "lognormal"))
         configs += [("hvsr-filter", order, 2, "normal") for order in itertools.permutations(range(3))]       # --distribution_mc differs from --distribution_fn
         # quick: the chunk-sharing schedules first (one worker: every file in one chunk, the long fast file first / last)
-        first = [("hvsr-filter", (0, 1, 2), 1, "lognormal"), ("psd-diff", (0, 1, 2), 1, "lognormal"), ("hvsr-fft", (0, 1, 2), 1, "lognormal"),
+        first = [("hvsr-filter", (0, 1, 2), 1, "lognormal"), ("psd-diff", (0, 1, 2), 1, "lognormal"), ("hvsr-fft", (0, 1, 2), 1, "lognormal"), ("diffuse-figure", (1, 2, 0), 2, "lognormal"),
                  ("hvsr-filter", (1, 0, 2), 2, "normal"), ("psd-diff", (2, 1, 0), 3, "lognormal")]
         configs = first + [c for c in configs if c not in first]
         refs = {}
@@ -91,7 +98,8 @@ def cli_clause(cl, rng, n, replay):
             args = [names[o] for o in order]
             code = "from hvsrpy.cli import cli; cli()"
             p = subprocess.run([sys.executable, "-W", "ignore", "-c", code] + args + ["--preprocessing_settings_file", pre, "--processing_settings_file", pro,
-                                                                                       "--no_figure", "--nproc", str(nproc), "--distribution_mc", dmc, "--distribution_fn", "lognormal"],
+                                                                                       "--nproc", str(nproc), "--distribution_mc", dmc, "--distribution_fn", "lognormal"]
+                               + (["--ymax", "0.4"] if kind == "diffuse-figure" else ["--no_figure"]),
                                cwd=d, capture_output=True, text=True, env=os.environ, timeout=600)
             cl.case((kind, order, nproc, dmc))
             if p.returncode:
@@ -114,7 +122,7 @@ def cli_clause(cl, rng, n, replay):
 
 CLAUSES = [
     ("bounded:CLI output per file == read/preprocess/process/write for that file alone (orders x --nproc x three settings families)", "bounded",
-     "3 miniSEED files of 150 s (500, 100, 200 Hz); 2 s windows, and 70 s windows for the family with an fft_settings dictionary; quick 5 schedules (single-chunk first), thorough all 60", "hvsrpy.cli._process_hvsr", (5, 60), cli_clause),
+     "3 miniSEED files of 150 s (500, 100, 200 Hz); 2 s windows, and 70 s windows for the family with an fft_settings dictionary; quick 6 schedules (single-chunk first; one diffuse-field run with figures on and the y axis cut below the curve), thorough all 61", "hvsrpy.cli._process_hvsr", (6, 61), cli_clause),
 ]
 
 if __name__ == "__main__":
